@@ -8,6 +8,21 @@ from ..lean import cbits, fbits, parse_floats, run_driver
 ID = 'C09'
 DRIVERS = ('driver_trainers',)
 THEOREMS = [
+    'PbBss.C09.cacg_eigs_range',
+    'PbBss.C09.cacg_eigs_range_fromCovariance',
+    'PbBss.C09.cacg_trace_norm',
+    'PbBss.C09.cacg_trace_is_eigsum',
+    'PbBss.C09.cacg_cov_posdef',
+    'PbBss.C09.cacg_fromCovariance_posdef',
+    'PbBss.C09.weight_simplex',
+    'PbBss.C09.weight_simplex_renormalised',
+    'PbBss.C09.weight_simplex_uniform',
+    'PbBss.C09.vmf_mean_unit',
+    'PbBss.C09.watson_mode_unit',
+    'PbBss.C09.concentration_bounds',
+    'PbBss.C09.gaussian_cov_psd',
+    'PbBss.C09.gaussian_var_nonneg',
+    'PbBss.C09.bingham_eigs',
 ]
 ASSUMPTIONS = [
     'eigh contract (U unitary, A = U diag(lambda) U^H, lambda real ascending) assumed by cacg_eigs_range / '
@@ -107,14 +122,9 @@ def single_trainer_domain(trainer, y, saliency, opt):
 def mixture_weight_domain(affiliation, saliency, weight_constant_axis, eps):
     wca = tu.wca_arg(weight_constant_axis)
     w = mmu.estimate_mixture_weight(affiliation.copy(), None if saliency is None else saliency.copy(), wca)
-    if saliency is not None:
-        # the weight of an index is defined when the saliency sums to a positive value over the tied axes
-        nd = affiliation.ndim
-        ax = tuple(a % nd for a in tu.wca_axes(weight_constant_axis))
-        s_full = np.broadcast_to(np.asarray(saliency)[..., None, :], affiliation.shape)
-        tot = np.sum(s_full * affiliation, axis=tuple(a for a in ax if a != nd - 2) or None, keepdims=True) if ax else s_full
-        if np.any(np.sum(tot, axis=-2) == 0):
-            return Skip('saliency sums to zero over the tied axes for some index')
+    # the weight of an index is defined when the saliency sums to a positive value over the tied axes
+    if not tu.tied_saliency_positive(affiliation.shape, saliency, wca):
+        return Skip('saliency sums to zero over the tied axes for some index')
     return _first(tu.check_weight(w, affiliation.shape, wca, affiliation.shape[-2], eps))
 
 
@@ -130,20 +140,29 @@ def mixture_domain(model, y, emb, init, saliency, iterations, opt):
     K = init.shape[-2]
     eps = opt.get('affiliation_eps', 0.0)
     integ = model in ('gcacgmm', 'vmfcacgmm')
-    mass = init if saliency is None else init * np.asarray(saliency)[..., None, :]
-    if integ:
-        if np.any(np.sum(mass, axis=(0, 2)) == 0) or np.any(np.sum(mass, axis=2) == 0):
-            return Skip('a class starts without mass')
-    elif np.any(np.sum(mass, axis=-1) == 0):
+    if not tu.class_mass_positive(model, init, saliency):
         return Skip('a class starts without mass')
-    if saliency is not None:
-        nd = init.ndim
-        ax = tuple(a % nd for a in tu.wca_axes(opt['weight_constant_axis']) if a % nd != nd - 2)
-        s_full = np.broadcast_to(np.asarray(saliency)[..., None, :], init.shape)
-        if np.any(np.sum(s_full, axis=ax or None, keepdims=True) == 0):
-            return Skip('saliency sums to zero over the tied axes for some index')
+    if not tu.tied_saliency_positive(init.shape, saliency, opt['weight_constant_axis']):
+        return Skip('saliency sums to zero over the tied axes for some index')
+    def earlier_zero_scatter(bad):
+        # root cause: did an earlier iterate contain a class with all-zero weighted scatter?  (its reciprocal
+        # eigenvalues / log-determinant push the next quadratic forms and log-pdfs to 1/floor resp. +-overflow; the
+        # next scatter underflows, posterior columns can underflow to zero)
+        for i in range(1, iterations):
+            try:
+                mi = tu.call_mixture(model, y.copy(), init.copy(), sal, i, opt, emb)
+            except tu.ALLOWED_EXC:
+                break
+            b2 = tu.check_cacg(mi.cacg.covariance_eigenvalues, mi.cacg.covariance_eigenvectors,
+                               opt['covariance_norm'], opt['eigenvalue_floor'])
+            if b2 is not None and b2[0] == 'cacg-zero-scatter':
+                return ('cacg-zero-scatter', f'(iteration {i}) {b2[1]}; at iteration {iterations}: {bad[1]}')
+        return bad
+
     bad = tu.check_weight(m.weight, init.shape, tu.wca_arg(opt['weight_constant_axis']), K, eps, squeezed=integ)
     if bad:
+        if model in ('cacgmm', 'gcacgmm', 'vmfcacgmm'):
+            bad = earlier_zero_scatter(bad)
         return Fail(bad[0], f'{model}: {bad[1]}')
     checks = []
     if model in ('gmm', 'gcacgmm'):
@@ -165,8 +184,11 @@ def mixture_domain(model, y, emb, init, saliency, iterations, opt):
             return Fail('watson-concentration-range', f'cwmm: concentration {c.ravel()[:4]} outside [0, max]')
         checks.append(_unit_or_zero(m.complex_watson.mode, 'watson-mode'))
     if model in ('cacgmm', 'gcacgmm', 'vmfcacgmm'):
-        checks.append(tu.check_cacg(m.cacg.covariance_eigenvalues, m.cacg.covariance_eigenvectors,
-                                    opt['covariance_norm'], opt['eigenvalue_floor']))
+        bad = tu.check_cacg(m.cacg.covariance_eigenvalues, m.cacg.covariance_eigenvectors,
+                            opt['covariance_norm'], opt['eigenvalue_floor'])
+        if bad is not None and bad[0] != 'cacg-zero-scatter':
+            bad = earlier_zero_scatter(bad)
+        checks.append(bad)
     if model == 'cbmm':
         checks.append(tu.check_bingham(m.complex_bingham.covariance_eigenvalues, m.complex_bingham.covariance_eigenvectors,
                                        opt['max_concentration']))
@@ -218,7 +240,7 @@ def gen_degenerate_mixture(rng, model, tier):
 def search(ctx):
     rng = ctx.rng
     # (1) single trainers on the degenerate stream
-    for i in range(ctx.n(240, 5000)):
+    for i in range(ctx.n(960, 10000)):
         if ctx.out_of_time():
             break
         trainer = ['gaussian', 'cgauss', 'watson', 'vmf', 'cacg', 'bingham'][i % 6]
@@ -247,7 +269,7 @@ def search(ctx):
             ctx.sample({'oracle': 'single_trainer_domain', 'trainer': trainer, 'data': kind, 'shape': list(y.shape), 'saliency': skind,
                         'opt': {k: str(v) for k, v in opt.items()}, 'held': ok})
     # (2) mixture weights: all tying options, hard / clipped affiliations
-    for i in range(ctx.n(200, 4000)):
+    for i in range(ctx.n(800, 8000)):
         if ctx.out_of_time():
             break
         F, K, N = int(rng.integers(1, 4)), int(rng.integers(1, 5)), int(rng.integers(1, 7))
@@ -266,7 +288,7 @@ def search(ctx):
         ctx.run(mixture_weight_domain, affiliation=aff, saliency=sal,
                 weight_constant_axis=list(wca) if isinstance(wca, tuple) else wca, eps=eps)
     # (3) all seven mixture trainers: degenerate data, hard one-hot starts, all options
-    for i in range(ctx.n(350, 7000)):
+    for i in range(ctx.n(1400, 14000)):
         if ctx.out_of_time():
             break
         model = tu.MODELS[i % 7]
@@ -279,4 +301,4 @@ def search(ctx):
 
 
 def corr(ctx):
-    pass
+    tu.corr_trainers(ctx, degenerate=True)
